@@ -5,25 +5,33 @@ From Exmex.Model Require Import Base EvalBinary Lexer Flat Deep Convert Calc Par
 From Exmex.Gen Require Import Tables.
 From Coq Require Import Reals.
 From Coquelicot Require Import Coquelicot.
-From Exmex.Proofs Require Import RuleAnalysis.
+From Coq Require Import Sorted Lra.
+From Exmex.Proofs Require Import Vars DeepSem DeepSubs C11Main DeepOps NormalForm RuleAnalysis RealCarrier CalcSem Dual PartialCorrect PartialMain.
 Import ListNotations.
 Open Scope nat_scope.
 
-(* `_partial`.  Proved: (1) the model's table of derivative rules has exactly the names, and the binary/unary kinds,
-   of make_partial_derivative_ops as the implementation reports them on THIS run (Gen/Tables.v is regenerated from
-   the hook); (2) the non-differentiable default operators have no rule; (3) in the default mode a binary operator
-   without a rule makes the reduction step fail with an error, never with an expression.
-   (4) analysis, rule by rule: the expression every rule of the table builds — computed by the model's apply_urule /
-   apply_brule in the free term algebra and read over the real numbers (operators by name in the default table generated
-   on this run) — IS the derivative of the operator it belongs to, at every point of the interior of its domain:
-   the chain-rule factor of every differentiable unary operator, and the sum, difference, product, quotient and
-   (positive base, variable exponent) power rules for arbitrary differentiable operands.  [standard axioms of the real
-   numbers, see Print Assumptions]
-   Missing: the composition of the rules along an expression (the reduction in application order of
-   partial_derivative_inner, the product of the outer factors, the neutral-element shortcuts), i.e. the statement that
-   the derivative EXPRESSION of every expression denotes the derivative; it is covered by the correspondence on the free
-   term algebra (model = implementation on the derivative expression, exactly) plus the numeric oracle (central
-   differences of the reference term at generic points). *)
+(* What is proved.
+   MAIN THEOREMS (C05_partial_is_the_derivative, C05_partial_evaluates_to_the_derivative): over the real numbers, with
+   the operators of the default table (regenerated from the implementation on every run) interpreted by name, for EVERY
+   deep expression in compile normal form that is index-consistent with its sorted variable list, EVERY variable index
+   and EVERY assignment: if partial_deepex (partial.rs: value/derivative pairs reduced in application order, the
+   derivative rules, the chain-rule factors of the unary operators, the neutral-element shortcuts of deep.rs) succeeds,
+   the result has the variable list of the expression, is again in normal form and index-consistent (so it can be
+   differentiated again), and wherever every operator application of the expression lies in the interior of its domain
+   (in_domain: non-zero denominators, positive arguments of ln/sqrt/log2/log10, |x|<1 for asin/acos/atanh, x>1 for
+   acosh, cos x <> 0 for tan, and for `^` a positive base or a natural-number constant exponent) the expression is
+   differentiable as a function of that variable and the result EVALUATES to its derivative (Coquelicot's is_derive).
+   The proof goes through a dual-number carrier of the model (Proofs/Dual.v): the algorithm is shown to compute the
+   dual-number denotation of the expression (Proofs/PartialCorrect.v), whose derivative component is sound.
+   [standard axioms of the real numbers, see Print Assumptions]
+   RULE LEVEL (`_partial`): (1) the model's table of derivative rules has exactly the names and kinds
+   make_partial_derivative_ops reports on THIS run; (2) the non-differentiable default operators have no rule; (3) in
+   the default mode a binary operator without a rule makes the reduction step fail with an error; (4) every rule,
+   computed in the free term algebra and read over the reals, is the derivative of its operator.
+   Not in the theorems: that the implementation is the model (correspondence of this check, on the free term algebra,
+   exactly, plus central differences); floating-point rounding; that partial_deepex SUCCEEDS on every expression over
+   differentiable operators (an example is computed below; success on generated expressions is observed by the
+   correspondence); flat expressions (they are differentiated through the conversions of C03). *)
 Theorem C05_rule_names_match_code_partial :
   map (fun r => (fst (fst r), match snd (fst r) with Some _ => true | None => false end, match snd r with Some _ => true | None => false end)) rule_table
   = partial_rule_names.
@@ -88,7 +96,57 @@ Proof.
                                           |exact (rule_div f g t f' g' Hf Hg)|exact (rule_pow f g t f' g' Hf Hg)].
 Qed.
 
+Close Scope R_scope.
+Open Scope nat_scope.
+(* ---- the main theorems ---- *)
+Theorem C05_partial_is_the_derivative :
+  forall (e d : deepex R) (vi fuel : nat),
+  StronglySorted str_lt (dvars e) -> dconsistent (tflagged float_table) (dvars e) e -> nf e -> vi < length (dvars e) ->
+  partial_deepex Rc RDC float_table fuel vi e MError = Ok d ->
+  dvars d = dvars e /\ dconsistent (tflagged float_table) (dvars e) d /\ nf d /\
+  forall rho : str -> R, in_domain e vi rho ->
+    is_derive (fun t => dden Rc (nlook (line rho (nth vi (dvars e) nil) t)) e) (rho (nth vi (dvars e) nil)) (dden Rc (nlook rho) d).
+Proof. exact partial_is_derivative. Qed.
+
+Theorem C05_partial_evaluates_to_the_derivative :
+  forall (e d : deepex R) (vi fuel : nat) (vals : list R),
+  StronglySorted str_lt (dvars e) -> dconsistent (tflagged float_table) (dvars e) e -> nf e -> vi < length (dvars e) ->
+  partial_deepex Rc RDC float_table fuel vi e MError = Ok d -> length vals = length (dvars e) ->
+  in_domain e vi (env_of Rc (dvars e) vals) ->
+  exists v, eval_deep Rc d vals = Ok v /\
+    is_derive (fun t => match eval_deep Rc e (set_nth vi t vals) with Ok y => y | _ => 0%R end) (nth vi vals 0%R) v.
+Proof. exact partial_evaluates_to_the_derivative. Qed.
+
+(* non-vacuity: sin(x).  All premises hold, differentiation succeeds over the real carrier with cos(x), every point is in
+   the domain; hence cos(x) evaluates to the derivative of the evaluation of sin(x). *)
+Definition ex_X : str := (120%N :: nil).
+Definition ex_sin : deepex R := DE (DVar 0 ex_X :: nil) nil (10 :: nil) (ex_X :: nil).
+Definition ex_cos : deepex R := DE (DVar 0 ex_X :: nil) nil (11 :: nil) (ex_X :: nil).
+Ltac decide_reals :=
+  repeat (match goal with |- context [Req_EM_T ?a ?b] =>
+            let E := fresh "E" in destruct (Req_EM_T a b) as [E|E]; [try (exfalso; lra)|try (exfalso; apply E; lra)] end; vm_compute).
+Example C05_example_premises :
+  StronglySorted str_lt (dvars ex_sin) /\ dconsistent (tflagged float_table) (dvars ex_sin) ex_sin /\ nf ex_sin /\ 0 < length (dvars ex_sin) /\
+  partial_deepex Rc RDC float_table 3 0 ex_sin MError = Ok ex_cos /\ forall rho, in_domain ex_sin 0 rho.
+Proof.
+  split; [repeat constructor|]. split.
+  { unfold dconsistent, ex_sin. cbn [dvars]. rewrite dwf_unfold. split; [reflexivity|]. split; [reflexivity|]. split; [intros o []|]. constructor; [reflexivity|constructor]. }
+  split; [unfold ex_sin; rewrite nf_unfold; split; [intros d Hd; discriminate|constructor; [exact I|constructor]]|].
+  split; [cbn; auto|]. split.
+  - vm_compute. decide_reals. reflexivity.
+  - intros rho. unfold in_domain. cbn [dvars ex_sin nth]. unfold ex_sin. rewrite ddual_unfold. cbn. change (ucode_of 10) with CSin. cbn. tauto.
+Qed.
+Example C05_example_conclusion : forall x0 : R,
+  exists v, eval_deep Rc ex_cos (x0 :: nil) = Ok v /\
+    is_derive (fun t => match eval_deep Rc ex_sin (t :: nil) with Ok y => y | _ => 0%R end) x0 v.
+Proof.
+  intros x0. destruct C05_example_premises as (H1 & H2 & H3 & H4 & H5 & H6).
+  exact (C05_partial_evaluates_to_the_derivative ex_sin ex_cos 0 3 (x0 :: nil) H1 H2 H3 H4 H5 eq_refl (H6 _)).
+Qed.
+
 Print Assumptions C05_rule_names_match_code_partial.
 Print Assumptions C05_missing_binary_rule_is_error_partial.
 Print Assumptions C05_unary_rules_are_derivatives_partial.
 Print Assumptions C05_binary_rules_are_derivatives_partial.
+Print Assumptions C05_partial_is_the_derivative.
+Print Assumptions C05_partial_evaluates_to_the_derivative.
